@@ -40,7 +40,35 @@ def obs_tc(tc) -> dict:
     }
 
 
+def crc_zero_prefix_tc(c, max_n=600):
+    """Adjust a generated telecommand so that the CRC-16 over a structural prefix is exactly 0x0000 - over the 6-octet primary header
+    (by choosing sequence count and application-data length) or over primary + secondary header (by choosing the source id).  A chunk-wise
+    checksum implementation passes through such intermediate states; they are 2^-16 rare for random fields."""
+    c = dict(c)
+    if c.pop("_zero_at", 11) == 11:
+        app = expand_fill(c["app_data"])
+        hdr = RC.sp_header(0, 1, 1, c["apid"], 3, c["seq"], 5 + len(app) + 2 - 1)
+        pre = hdr + bytes([0x20 | c["ack"], c["service"], c["subservice"]])
+        c["source_id"] = crc16_fast(pre)
+        return c
+    for seq in range(c["seq"], c["seq"] + 16384):
+        first4 = RC.sp_header(0, 1, 1, c["apid"], 3, seq % 16384, 0)[:4]
+        dlen = crc16_fast(first4)
+        n = dlen + 1 - 5 - 2
+        if 0 <= n <= max_n:
+            c["seq"] = seq % 16384
+            c["app_data"] = {"len": n, "fill": c["service"], "step": 1}
+            return c
+    return c
+
+
 def st_tc(big=(255, 256, 1000, 4096, 65528, 65529)):
+    base = _st_tc_plain(big)
+    zero = st.tuples(_st_tc_plain(()), st.sampled_from([6, 11])).map(lambda t: crc_zero_prefix_tc({**t[0], "_zero_at": t[1]}))
+    return st.one_of(base, base, base, base, base, base, base, zero)
+
+
+def _st_tc_plain(big=(255, 256, 1000, 4096, 65528, 65529)):
     return st.fixed_dictionaries(
         {
             "service": uint(8),
@@ -119,6 +147,29 @@ def _tc_histories(sp, tcm, check_pus_crc, c, app, want, tc):
     decoded, fields changed through the public header objects - octets and views must not depend on the order of calls."""
     devs = []
     pack_fresh(devs, "hist.pack_returns_fresh_buffer", tc.pack, want)
+    # equality does not depend on whether either side was ever packed
+    true(devs, "hist.eq_decoded_vs_never_packed", bool(tcm.PusTc.unpack(want) == build_tc(tcm, c, app)) and bool(build_tc(tcm, c, app) == tcm.PusTc.unpack(want)),
+         "decoded telecommand != telecommand with identical fields that was never packed")
+    # an operation on ANOTHER telecommand was refused just before (out-of-range field, non-octet data): the next valid one is unaffected
+    for bad_kw in ({"source_id": 0x10000}, {"service": 256}, {"app_data": "not octets"}):
+        try:
+            kw = dict(service=c["service"], subservice=c["subservice"], apid=c["apid"], seq_count=c["seq"], app_data=app, source_id=c["source_id"], ack_flags=c["ack"])
+            kw.update(bad_kw)
+            bad = tcm.PusTc(**kw)
+            for op in (bad.calc_crc, bad.to_space_packet, bad.pack):
+                try:
+                    op()
+                except Exception:  # noqa: BLE001 - the refusal itself is not under test here
+                    pass
+        except Exception:  # noqa: BLE001
+            pass
+        fresh = build_tc(tcm, c, app)
+        tag = "after_refused_" + next(iter(bad_kw))
+        eq(devs, f"hist.{tag}.view", bytes(fresh.to_space_packet().pack()), want)
+        fresh2 = build_tc(tcm, c, app)
+        fresh2.calc_crc()
+        eq(devs, f"hist.{tag}.calc_crc", bytes(fresh2.crc16), want[-2:])
+        eq(devs, f"hist.{tag}.pack", bytes(build_tc(tcm, c, app).pack()), want)
     # caller-owned bytearray as application data, space-packet view taken (twice) before packing
     caller = bytearray(app)
     t = build_tc(tcm, c, caller)
@@ -132,6 +183,7 @@ def _tc_histories(sp, tcm, check_pus_crc, c, app, want, tc):
     buf = bytearray(want + b"\x18\x00")
     d = tcm.PusTc.unpack(buf)
     scribble(buf)
+    eq(devs, "hist.decoded.crc16_as_received", bytes(d.crc16), want[-2:])
     eq(devs, "hist.decoded.fields_after_caller_reused_buffer", obs_tc(d), want_obs(c, app))
     eq(devs, "hist.decoded.view", bytes(d.to_space_packet().pack()), want)
     eq(devs, "hist.decoded.view_again", bytes(d.to_space_packet().pack()), want)
